@@ -437,6 +437,103 @@ func registerHasher(ex *Explorer) {
 }
 
 func registerMisc(ex *Explorer) {
+	// sort.Slice & co. (the library versions go through reflection): a stable insertion
+	// sort over the slice's backing store, calling the target's less function; a symbolic
+	// comparison forks the path
+	sortSlice := func(fr *frame, args []value) value {
+		sl, ok := args[0].(iface).v.([]value)
+		if !ok {
+			unsupp("sort.Slice of %T", args[0].(iface).v)
+		}
+		for a := 1; a < len(sl); a++ {
+			for b := a; b > 0; b-- {
+				r := call(fr.i, fr, token.NoPos, args[1], []value{b, b - 1})
+				if !fr.i.ctx.branch(termOf(r)) {
+					break
+				}
+				sl[b], sl[b-1] = sl[b-1], sl[b]
+			}
+		}
+		return nil
+	}
+	// errors.Is / Unwrap / As (the library versions inspect types through reflectlite)
+	unwrap := func(fr *frame, e iface) (iface, bool) {
+		if e.t == nil {
+			return iface{}, false
+		}
+		if m := fr.i.findMethod(e.t, "Unwrap"); m != nil && m.Signature.Results().Len() == 1 {
+			if r, ok := call(fr.i, fr, token.NoPos, m, []value{e.v}).(iface); ok {
+				return r, true
+			}
+		}
+		return iface{}, false
+	}
+	comparable := func(t types.Type) bool { return t != nil && types.Comparable(t) }
+	ex.register("errors.Unwrap", func(fr *frame, args []value) value {
+		r, _ := unwrap(fr, args[0].(iface))
+		return r
+	})
+	ex.register("errors.Is", func(fr *frame, args []value) value {
+		err, target := args[0].(iface), args[1].(iface)
+		for depth := 0; depth < 32 && err.t != nil; depth++ {
+			if comparable(err.t) && err.eq(nil, target) {
+				return true
+			}
+			if m := fr.i.findMethod(err.t, "Is"); m != nil && m.Signature.Params().Len() == 1 {
+				if r := call(fr.i, fr, token.NoPos, m, []value{err.v, target}); fr.i.ctx.branch(termOf(r)) {
+					return true
+				}
+			}
+			next, ok := unwrap(fr, err)
+			if !ok {
+				return false
+			}
+			err = next
+		}
+		return false
+	})
+	ex.register("errors.As", func(fr *frame, args []value) value {
+		err, tgt := args[0].(iface), args[1].(iface)
+		pt, ok := tgt.t.Underlying().(*types.Pointer)
+		if !ok || tgt.v.(*value) == nil {
+			panic(targetPanic{iface{t: types.Typ[types.String], v: "errors: target must be a non-nil pointer"}})
+		}
+		want := pt.Elem()
+		for depth := 0; depth < 32 && err.t != nil; depth++ {
+			match := types.Identical(err.t, want)
+			if it, isI := want.Underlying().(*types.Interface); isI && !match {
+				match = types.Implements(err.t, it)
+			}
+			if match {
+				if _, isI := want.Underlying().(*types.Interface); isI {
+					*(tgt.v.(*value)) = err
+				} else {
+					*(tgt.v.(*value)) = err.v
+				}
+				return true
+			}
+			next, ok := unwrap(fr, err)
+			if !ok {
+				return false
+			}
+			err = next
+		}
+		return false
+	})
+	ex.register("sort.Slice", sortSlice)
+	ex.register("sort.SliceStable", sortSlice)
+	ex.register("sort.SliceIsSorted", func(fr *frame, args []value) value {
+		sl, ok := args[0].(iface).v.([]value)
+		if !ok {
+			unsupp("sort.SliceIsSorted of %T", args[0].(iface).v)
+		}
+		for a := len(sl) - 1; a > 0; a-- {
+			if fr.i.ctx.branch(termOf(call(fr.i, fr, token.NoPos, args[1], []value{a, a - 1}))) {
+				return false
+			}
+		}
+		return true
+	})
 	registerStrings(ex)
 	registerSig(ex)
 	registerTmKeys(ex)
